@@ -38,8 +38,8 @@ Definition V_er (r : expect_result) : V :=
 
 Definition clear_logs (c : chan) : chan :=
   let t := io c in let l := lgs c in
-  with_lgs (with_io c (mkTio (pend t) (now t) (accept t) []))
-           (mkLg (streams l) (streambuf l) (log_prompt l) []).
+  with_lgs (with_io c (mkTio (pend t) (now t) (accept t) [] (wr t)))
+           (mkLg (streams l) (streambuf l) (log_prompt l) [] (fwdb l)).
 
 Definition payload (isstr : bool) (b : list N) : list N := if isstr then utf8_enc b else b.
 
@@ -88,7 +88,7 @@ Fixpoint run_ops (ops : list op) (c : chan) : list V * chan :=
 
 Definition final_obs (c : chan) : V :=
   VL [VB (concat (map snd (pend (io c)))); VB (streambuf (lgs c)); VNat (length (deaths c));
-      VNat (length (streams (lgs c))); VBool (log_prompt (lgs c))].
+      VNat (length (streams (lgs c))); VBool (log_prompt (lgs c)); VB (wr (io c))].
 
 (* a correspondence case: scripted transport (timed pieces, partial-write oracle) and a script *)
 Definition chan_model (case : list (Z * list N) * list nat * list op) : V :=
